@@ -156,6 +156,9 @@ func (ex *Exec) execBody(fn *ssa.Function, info *fnInfo, args []Value, env []Val
 	for i, p := range fn.Params {
 		fr.regs[info.idx[p]] = args[i]
 	}
+	if len(env) < len(fn.FreeVars) {
+		panic(fmt.Sprintf("closure %s called with %d of %d free variables (at %s)", fn, len(env), len(fn.FreeVars), ex.where()))
+	}
 	for i, fv := range fn.FreeVars {
 		fr.regs[info.idx[fv]] = env[i]
 	}
